@@ -39,8 +39,8 @@ Pick(h) == Lat[(h % Len(Lat)) + 1]
 (* raw log-variance head values: saturating low, moderately low, middle, moderately high, saturating high *)
 Raw == << -10000, -8, 0, 2, 10000 >>
 (* raw (pre-sigmoid) parameters of the learned bounds, per output *)
-RawMin == << 0, -2, 1, 3 >>      \* 3: lower bound above -4, may cross the upper bound
-RawMax == << 0, 1, -1, 2 >>
+RawMin == << 0, -2, 1, 3, -10000, 10000 >>      \* 3: lower bound above -4, may cross the upper bound; +-10000: saturated raw bound parameters
+RawMax == << 0, 1, -1, 2, 10000, -10000 >>
 
 Members(E) == 0 .. (E - 1)
 
